@@ -370,7 +370,7 @@ def exh_choice(ctx):
     return _emit(d)
 
 
-@rule("EXH-SEQ", ["C01", "C02", "C03"], floor=6)
+@rule("EXH-SEQ", ["C01", "C02", "C03", "C05"], floor=6)
 def exh_seq(ctx):
     """SequenceIterator: a stack of iterators, one per operation; Some(x) from the top either completes the
     sequence (stack height = number of operations) or pushes operations[height].matches_iter(matcher, x) after
